@@ -291,6 +291,7 @@ def run(facts, tier):
     c14.c14_8(facts, res, "R12-10")
     from props import c15
     c15.r15_4(facts, res, "R12-11")    # at most one document element and one document type: the refusals of XmlDocument::insert_by_id
+    c14.slot_index(facts, res, "R12-12")
     r12_7(facts, res)
     import staleidx
     staleidx.rule(facts, res, "R12-5", lambda f: f["crate"] in ("xml_info", "xml_dom"), floor=7)
